@@ -1,1 +1,3 @@
 pub mod dhcp_hist;
+pub mod c12;
+pub mod c14;
